@@ -140,7 +140,7 @@ class BitStore:
 
     def find(self, bs: BitStore, start: int, end: int, bytealigned: bool = False) -> int:
         if not bytealigned:
-            return self._bitarray.find(bs._bitarray, start, end)
+            return self._bitarray.find(bs._logical_bitarray(), start, end)
         try:
             return next(self.findall_msb0(bs, start, end, bytealigned))
         except StopIteration:
@@ -148,7 +148,7 @@ class BitStore:
 
     def rfind(self, bs: BitStore, start: int, end: int, bytealigned: bool = False):
         if not bytealigned:
-            return self._bitarray.find(bs._bitarray, start, end, right=True)
+            return self._bitarray.find(bs._logical_bitarray(), start, end, right=True)
         try:
             return next(self.rfindall_msb0(bs, start, end, bytealigned))
         except StopIteration:
@@ -173,7 +173,7 @@ class BitStore:
                 byte_pos = byte_pos + 1
             return
         # General case
-        i = self._bitarray.search(bs._bitarray, start, end)
+        i = self._bitarray.search(bs._logical_bitarray(), start, end)
         if not bytealigned:
             for p in i:
                 yield p
@@ -183,7 +183,7 @@ class BitStore:
                     yield p
 
     def rfindall_msb0(self, bs: BitStore, start: int, end: int, bytealigned: bool = False) -> Iterator[int]:
-        i = self._bitarray.search(bs._bitarray, start, end, right=True)
+        i = self._bitarray.search(bs._logical_bitarray(), start, end, right=True)
         if not bytealigned:
             for p in i:
                 yield p
